@@ -10,7 +10,8 @@ RULE = ("E1/FULL with pause histories (N6): reference = one uninterrupted "
         "further pauses (all compositions when T<=8 in thorough): start(k); "
         "resume(u1); ...; resume(T); oracle: boundary-snapshot trajectory, "
         "per-timestep table (minus algtime), task table and event log equal "
-        "the reference; at every pause point a second start() raises "
+        "the reference; the same against the open-ended start() with "
+        "start(k); resume(natural end); at every pause point a second start() raises "
         "RuntimeError and changes nothing; resume() on a fresh simulation "
         "raises and changes nothing; non-trivial = every paused history")
 
@@ -155,7 +156,28 @@ def run(rep, tier, seed):
         sc, case, T, hs = g
         rc = dict(case, runtime=T)
         r0, ref, _ = observe(rc)
-        return [one(case, T, h, rc, r0, ref) for h in hs]
+        out = [one(case, T, h, rc, r0, ref) for h in hs]
+        # second reference: the open-ended start() (it is the only path that
+        # polls is_finished()); paused runs end at its natural end T0
+        ru, refu, _ = observe(case)
+        if refu is not None:
+            T0 = int(ru.end_time)
+            ks = sorted({1, max(1, T0 // 2), T0 - 1}) if tier != "thorough" \
+                else range(1, T0)
+            for k in ks:
+                if 0 < k < T0:
+                    h = [k, T0]
+                    r, got, mons = observe(dict(case, pauses=h),
+                                           start_twice=True)
+                    if got is None:
+                        vs = [("C11.same-trajectory", "paused-run-%s"
+                               % r.outcome, {"exc": r.exc})]
+                    else:
+                        vs = [(c, "%s:vs-open-ended-start" % cause, d)
+                              for c, cause, d in diff(refu, got)]
+                        vs += mons[0].problems
+                    out.append(("run-open", vs, r.probe.n_events, h))
+        return out
 
     def one(case, T, h, rc, r0, ref):
         if ref is None:
@@ -179,9 +201,13 @@ def run(rep, tier, seed):
     gres, _ = engine.parallel_map(gwork, groups, chunk=1)
     items, res = [], []
     for (sc, case, T, hs), rr in zip(groups, gres):
-        for h, r in zip(hs, rr or []):
+        rr = rr or []
+        for h, r in zip(hs, rr):
             items.append((sc, case, T, h))
             res.append(r)
+        for r in rr[len(hs):]:
+            items.append((sc, case, "open", r[3]))
+            res.append(r[:3])
     for (sc, case, T, h), (kind, vs, ne) in zip(items, res):
         if kind == "skip":
             continue
@@ -195,7 +221,7 @@ def run(rep, tier, seed):
         rep.states.add(hash((repr(case), tuple(h or ()))))
         if h is not None:
             rep.nontrivial.add(hash((repr(case), tuple(h))))
-        rep.outcomes.add(T)
+        rep.outcomes.add(str(T))
         if h is not None and len(rep.samples) < 2 and len(h) > 2:
             rep.add_sample({"case": case, "T": T, "pause_history": h})
         for clause, cause, det in vs:
@@ -209,6 +235,17 @@ def run(rep, tier, seed):
 
 def replay(payload):
     case, T, h = payload["case"], payload["T"], payload["history"]
+    if T == "open":
+        ru, refu, _ = observe(case)
+        if refu is None:
+            return []
+        r, got, mons = observe(dict(case, pauses=h), start_twice=True)
+        if got is None:
+            vs = [("C11.same-trajectory", "paused-run-%s" % r.outcome, None)]
+        else:
+            vs = [(c, "%s:vs-open-ended-start" % cause, d)
+                  for c, cause, d in diff(refu, got)] + mons[0].problems
+        return [{"clause": a, "cause": b, "detail": c} for a, b, c in vs]
     rc = dict(case, runtime=T)
     r0, ref, _ = observe(rc)
     if ref is None:
